@@ -1,7 +1,9 @@
 package phantoms
 
 import (
+	"bytes"
 	"net"
+	"sync"
 
 	"github.com/refraction-networking/conjure/internal/verifnd"
 	pb "github.com/refraction-networking/conjure/proto"
@@ -242,7 +244,7 @@ func VerifC14Select() {
 		return // bound (quick): two-network configurations are explored for IPv4 requests only
 	}
 	libver := uint(verifnd.Range("libver", 2, 1<<20)) // every version >= 2 takes the HKDF algorithm
-	w := uint32(verifnd.U8("weight")) // incl. zero
+	w := uint32(verifnd.U8("weight"))                 // incl. zero
 	rnd := verifnd.Bool("randomize")
 	var specs []verifNetSpec
 	var strs []string
@@ -355,4 +357,117 @@ func VerifC14History() {
 		same = before[i] == after[i]
 	}
 	verifnd.Assert(same, "C14.history.configuration-unchanged")
+}
+
+// VerifC14LegacyConcurrent: the clause "running many selections concurrently
+// never changes any result" for the algorithm generations that serve library
+// versions 0 and 1.  Two goroutines run the legacy address step (and, second
+// scenario, the legacy weighted group choice) for two arbitrary seeds at the
+// same time, under every interleaving at the operations on the package-level
+// random generator; each result must equal what the same call returns alone,
+// and a repeated call must repeat its result.  math/rand is modelled as a
+// deterministic function of (seed, draws since seeding), the global generator
+// as shared state.  Bound: seeds whose varint encoding is one byte.
+// Native replay cannot force a schedule: it repeats the concurrent part until
+// the interleaving shows (or 20000 rounds), then the engine re-executes the
+// recorded schedule.
+// verif:replay=native-then-model
+// verif:shards=2
+func VerifC14LegacyConcurrent() {
+	rounds := 1
+	if !verifnd.Symbolic() {
+		rounds = 20000
+	}
+	scenario := verifnd.Choose("scenario", 2) // sharded: address step, weighted group choice
+	seedA, seedB := verifnd.Bytes("seedA", 16), verifnd.Bytes("seedB", 16)
+	verifnd.Cut("legacy-seed-varint-is-one-byte", verifnd.And(seedA[0] < 0x80, seedB[0] < 0x80))
+	var wg sync.WaitGroup
+	if scenario == 0 {
+		_, netw, _ := net.ParseCIDR("192.0.2.0/24")
+		wantA, errA := SelectAddrFromSubnet(seedA, netw)
+		wantB, errB := SelectAddrFromSubnet(seedB, netw)
+		if errA != nil || errB != nil {
+			return
+		}
+		var gotA, gotB net.IP
+		for r := 0; r < rounds; r++ {
+			wg.Add(2)
+			go func() { defer wg.Done(); gotA, _ = SelectAddrFromSubnet(seedA, netw) }()
+			go func() { defer wg.Done(); gotB, _ = SelectAddrFromSubnet(seedB, netw) }()
+			wg.Wait()
+			if rounds > 1 && !(bytes.Equal(gotA, wantA) && bytes.Equal(gotB, wantB)) {
+				break
+			}
+		}
+		verifnd.Assert(verifnd.BytesEq(gotA, wantA) && verifnd.BytesEq(gotB, wantB), "C14.legacy.concurrent-selections-do-not-change-results")
+		again, _ := SelectAddrFromSubnet(seedA, netw)
+		verifnd.Assert(verifnd.BytesEq(again, wantA), "C14.legacy.repeat")
+		verifnd.Reach("C14.legacy.addr.done")
+		return
+	}
+	w1, w2 := uint32(1), uint32(3)
+	sc := &SubnetConfig{WeightedSubnets: []*pb.PhantomSubnets{
+		{Weight: &w1, Subnets: []string{"192.0.2.0/24"}},
+		{Weight: &w2, Subnets: []string{"198.51.100.0/24"}},
+	}}
+	first := func(nets []*phantomNet, err error) string {
+		if err != nil || len(nets) == 0 {
+			return ""
+		}
+		return nets[0].String()
+	}
+	wantA := first(sc.getSubnetsVarint(seedA, true))
+	wantB := first(sc.getSubnetsVarint(seedB, true))
+	var gotA, gotB string
+	for r := 0; r < rounds; r++ {
+		wg.Add(2)
+		go func() { defer wg.Done(); gotA = first(sc.getSubnetsVarint(seedA, true)) }()
+		go func() { defer wg.Done(); gotB = first(sc.getSubnetsVarint(seedB, true)) }()
+		wg.Wait()
+		if rounds > 1 && !(gotA == wantA && gotB == wantB) {
+			break
+		}
+	}
+	verifnd.Assert(gotA == wantA && gotB == wantB, "C14.legacy.concurrent-group-choices-do-not-change-results")
+	verifnd.Assert(first(sc.getSubnetsVarint(seedA, true)) == wantA, "C14.legacy.group-choice-repeat")
+	verifnd.Reach("C14.legacy.group.done")
+}
+
+// VerifC14LegacySelect: Select end to end for library versions 0 and 1 (the
+// legacy algorithm generations) on a one-group configuration of one or two
+// networks of either family with arbitrary network bits: the result is an error
+// or a well-formed address of the requested family inside a configured network
+// of that family with the group's flag, and repeating the selection repeats the
+// result.  The 128-bit remainder of the seed by the (constant) address total is
+// abstracted to an uninterpreted function with its range facts (sound for these
+// obligations: where the remainder lands decides only WHICH network is used).
+// Bound: seeds whose varint encoding is one byte.
+// verif:shards=4
+func VerifC14LegacySelect() {
+	k := verifnd.Choose("case", 4) // sharded: library version x family
+	libver, v6 := uint(k%2), k/2 == 1
+	verifnd.AbstractBigMod()
+	seed := verifnd.Bytes("seed", 16)
+	verifnd.Cut("legacy-seed-varint-is-one-byte", seed[0] < 0x80)
+	w := uint32(1)
+	rnd := verifnd.Bool("randomize")
+	n := 1 + verifnd.Choose("nets", 2)
+	var specs []verifNetSpec
+	var strs []string
+	for i := 0; i < n; i++ {
+		sp := verifOneSpec("net", verifnd.Choose("isv6", 2) == 1, 0, []int{24, 32}, []int{96, 128})
+		specs = append(specs, sp)
+		strs = append(strs, verifnd.CIDR(sp.ip, sp.ones))
+	}
+	groups := []*pb.PhantomSubnets{{Weight: &w, Subnets: strs, RandomizeDstPort: &rnd}}
+	sel := &PhantomIPSelector{Networks: map[uint]*SubnetConfig{1: {WeightedSubnets: groups}}}
+	verifFindings(specs, groups, v6)
+	ip, err := sel.Select(seed, 1, libver, v6)
+	verifCheckResult(ip, err, v6, specs, groups, "legacy-select")
+	ip2, err2 := sel.Select(seed, 1, libver, v6)
+	verifnd.Assert((err == nil) == (err2 == nil), "C14.legacy-select.repeat.err")
+	if err == nil && err2 == nil && ip != nil && ip2 != nil && ip.IP() != nil && ip2.IP() != nil {
+		verifnd.Assert(verifnd.BytesEq(*ip.IP(), *ip2.IP()) && ip.SupportRandomPort() == ip2.SupportRandomPort(), "C14.legacy-select.repeat.same")
+	}
+	verifnd.Reach("C14.legacy-select.done")
 }
